@@ -24,7 +24,7 @@ EXPLANATION = (
     "inside the region) - a scratch buffer allocated once before the region and written by every worker "
     "is reported; (5) a descriptor, stream, mapping or block that a reader / writer handle releases outside its "
     "destructor is overwritten in the handle before the function returns (otherwise the destructor releases it "
-    "again - for a descriptor that closes whatever another handle or thread was given under the same number). Decides these clauses, not equality of batches "
+    "again - for a descriptor that closes whatever another handle or thread was given under the same number). (6) the thread count only selects a schedule: a value coming from the configured thread count or the OpenMP runtime may be defaulted, clamped, handed on and named in OpenMP clauses, but no branch on it skips or adds effectful statements (R37). Decides these clauses, not equality of batches "
     "across thread counts nor races inside zlib/zstd/libgomp.")
 
 BR = "src/reader/batch_reader.c"
